@@ -55,7 +55,13 @@ template <typename PH>
 inline
 H79_Certificate::H79_Certificate(const PH& ph)
   : affine_dim(0), num_constraints(0) {
-  H79_Certificate cert(Polyhedron(NECESSARILY_CLOSED, ph.constraints()));
+  // Note: `PH' may be an NNC polyhedron (this template is preferred to the
+  // constructor taking a `const Polyhedron&' by overload resolution):
+  // strict inequalities require the NNC topology.
+  const Constraint_System& cs = ph.constraints();
+  const Topology topol = cs.has_strict_inequalities()
+    ? NOT_NECESSARILY_CLOSED : NECESSARILY_CLOSED;
+  H79_Certificate cert(Polyhedron(topol, cs));
   affine_dim = cert.affine_dim;
   num_constraints = cert.num_constraints;
 }
@@ -63,7 +69,11 @@ H79_Certificate::H79_Certificate(const PH& ph)
 template <typename PH>
 inline int
 H79_Certificate::compare(const PH& ph) const {
-  return this->compare(Polyhedron(NECESSARILY_CLOSED, ph.constraints()));
+  // See the note in the template constructor.
+  const Constraint_System& cs = ph.constraints();
+  const Topology topol = cs.has_strict_inequalities()
+    ? NOT_NECESSARILY_CLOSED : NECESSARILY_CLOSED;
+  return this->compare(Polyhedron(topol, cs));
 }
 
 } // namespace Parma_Polyhedra_Library
